@@ -480,15 +480,22 @@ func (r *Repository) Referrers(ctx context.Context, desc ocispec.Descriptor, art
 		return r.referrersByTagSchema(ctx, desc, artifactType, fn)
 	}
 
-	err := r.referrersByAPI(ctx, desc, artifactType, fn)
 	if state == referrersStateSupported {
 		// The repository is known to support Referrers API, no fallback.
-		return err
+		return r.referrersByAPI(ctx, desc, artifactType, fn)
 	}
 
 	// The referrers state is unknown.
+	var delivered bool
+	err := r.referrersByAPI(ctx, desc, artifactType, func(referrers []ocispec.Descriptor) error {
+		delivered = true
+		return fn(referrers)
+	})
 	if err != nil {
-		if errors.Is(err, errdef.ErrUnsupported) {
+		// An error of fn, or an error after referrers have been fed to fn, must
+		// not be taken for a missing Referrers API: falling back then would
+		// swallow the error of fn and feed the same referrers to fn again.
+		if !delivered && errors.Is(err, errdef.ErrUnsupported) {
 			// Referrers API is not supported, fallback to referrers tag schema.
 			r.SetReferrersCapability(false)
 			return r.referrersByTagSchema(ctx, desc, artifactType, fn)
